@@ -282,6 +282,7 @@ def conds(tier):
                        timeout=600 if q else 3000, functions=FUNCS[5:6] + FUNCS[:4]))
     for n in ([1, 2, 3] if q else [1, 2, 3, 4]):
         cs.append(Cond("strip-n%d" % n, "harness.c09:strip", [P("x%d" % i, "int", 0, len(STRIPALPHA)) for i in range(1, n + 1)] +
-                       [P("k", "int", 1, 13)], fixed={"n": n}, timeout=300 if q else 1500, functions=FUNCS[4:5],
+                       [P("k", "int", 1, 13 if n < 3 else 4)], fixed={"n": n}, shard=(["x1"] if n >= 3 else []),
+                       timeout=300 if q else 1500, functions=FUNCS[4:5],
                        note="labels of length %d over %r followed by the fan-out k" % (n, STRIPALPHA)))
     return cs
